@@ -3,8 +3,8 @@
 Two independent evaluators over one JSON-native AST:
 
 * `Interp` - SLD resolution (depth first, clauses top to bottom, goals left to right) with negation as failure,
-  conjunction / disjunction, =/2, \\=/2, findall/3, all/3 (YAP style: no duplicates, fails on no solution), lists and
-  compound terms.  Answers come IN ORDER WITH DUPLICATES.
+  conjunction / disjunction, =/2, \\=/2, findall/3, all/3 (one element per distinct answer substitution of the goal,
+  fails on no solution), lists and compound terms.  Answers come IN ORDER WITH DUPLICATES.
 * `least_model` - semi-naive bottom-up evaluation of definite Datalog (no function symbols): the least Herbrand model.
 
 AST
@@ -289,8 +289,11 @@ class Interp(object):
         self.track_dups = True
         self.nonground_choice = False
         self.track_proofs = False  # thread the list of proof leaves through the substitution (key '#p')
-        self.findall_log = []  # with track_proofs: one list of proofs (tuples of leaves) per evaluated findall/all
+        self.findall_log = []  # with track_proofs: (kind, proofs, leaf use counts) per evaluated findall/all
+        self.scopes = [{}]
+        self.all_log = []  # per evaluated all/3: the distinct answer substitutions in order of first occurrence
         self.all_choices = False  # C19 'maximal world': every choice goal succeeds (and is a proof leaf)
+        self.certain = False  # inside a negation of the maximal run: choices and negations fail
         self.nclauses = 0
         for idx, s in enumerate(prog):
             k = s[0]
@@ -310,10 +313,15 @@ class Interp(object):
         self.nclauses += 1
         self.clauses.setdefault((head[0], len(head[1])), []).append((head[1], body, self.nclauses))
 
-    @staticmethod
-    def _leaf(s, leaf):
+    def _leaf(self, s, leaf):
+        """Record a proof leaf (fact instance, builtin instance, choice) or a marker ('neg',) / ('findall',) in the
+        substitution, and count how often the leaf is generated inside the current findall scope (in successful
+        and in failing branches alike)."""
         s = dict(s)
         s["#p"] = (leaf, s.get("#p"))
+        if len(leaf) > 1:
+            sc = self.scopes[-1]
+            sc[leaf] = sc.get(leaf, 0) + 1
         return s
 
     @staticmethod
@@ -340,27 +348,47 @@ class Interp(object):
             raise Budget()
 
     # goals are solved on JSON goals + a renaming dict (clause instance) + substitution
-    def solve(self, g, ren, s, depth):
+    def solve(self, g, ren, s, depth, cj=False):
+        """cj: the goal is (inside) a conjunct of a conjunction with at least two goals."""
         k = g[0]
         if depth > self.max_depth:
             raise Budget()
         if k == "call":
             args = tuple(to_internal(t, ren) for t in g[2])
-            for s2 in self.call(g[1], args, s, depth):
+            for s2 in self.call(g[1], args, s, depth, cj):
                 yield s2
         elif k == "and":
-            for s2 in self._conj(g[1], 0, ren, s, depth):
+            for s2 in self._conj(g[1], 0, ren, s, depth, cj or len(g[1]) >= 2):
                 yield s2
         elif k == "or":
             for sub in g[1]:
-                for s2 in self.solve(sub, ren, s, depth + 1):
+                for s2 in self.solve(sub, ren, s, depth + 1, cj):
                     yield s2
         elif k == "not":
             self._tick()
             inner = g[1]
             if not self._goal_ground(inner, ren, s):
                 self.floundered = True
+            found = False
+            if self.certain:
+                return  # 'certain' mode (inside a negation of the maximal run): nothing negative is certain
             for _ in self.solve(inner, ren, s, depth + 1):
+                found = True
+                if not self.track_proofs:
+                    break  # (with proof tracking the goal is exhausted: ProbLog evaluates it completely)
+            if self.all_choices:
+                # maximal run: the negation is possible unless the goal has a proof without choices and negation
+                saved = (self.track_proofs, self.track_dups)
+                self.certain, self.track_proofs, self.track_dups = True, False, False
+                try:
+                    found = False
+                    for _ in self.solve(inner, ren, s, depth + 1):
+                        found = True
+                        break
+                finally:
+                    self.certain = False
+                    self.track_proofs, self.track_dups = saved
+            if found:
                 return
             yield self._leaf(s, ("neg",)) if self.track_proofs else s
         elif k == "=":
@@ -380,22 +408,35 @@ class Interp(object):
             # pattern variables are renamed per solution (findall copies its results)
             sols = []
             proofs = []
-            for s2 in self.solve(g[2], ren, s, depth + 1):
-                sols.append(self._copy_fresh(resolve(tmpl, s2)))
-                if self.track_proofs:
-                    proofs.append(self.proof_of(s2, s.get("#p")))
+            keys = []
+            gvars = None
+            if k == "all":
+                gvars = tuple(to_internal(["v", v], ren) for v in goal_vars(g[2], term_vars(g[1], [])))
+            self.scopes.append({})
+            try:
+                for s2 in self.solve(g[2], ren, s, depth + 1):
+                    sols.append(self._copy_fresh(resolve(tmpl, s2)))
+                    if gvars is not None:
+                        keys.append(canonical(tuple(resolve(v, s2) for v in gvars)))
+                    if self.track_proofs:
+                        proofs.append(self.proof_of(s2, s.get("#p")))
+            finally:
+                uses = self.scopes.pop()
             if self.track_proofs:
-                self.findall_log.append((k, proofs))
+                self.findall_log.append((k, proofs, uses))
                 s = self._leaf(s, ("findall",))
             if k == "all":
+                # one element per distinct answer substitution of the goal (template + goal variables)
                 seen = set()
                 uniq = []
-                for t in sols:
-                    c = canonical((t,))
-                    if c not in seen:
-                        seen.add(c)
+                order = []
+                for t, key in zip(sols, keys):
+                    if key not in seen:
+                        seen.add(key)
                         uniq.append(t)
+                        order.append(key)
                 sols = uniq
+                self.all_log.append(order)
                 if not sols:
                     return
             s2 = unify(to_internal(g[3], ren), make_list(sols), s)
@@ -411,6 +452,8 @@ class Interp(object):
                 self.nonground_choice = True
                 raise Unsupported("non-ground probabilistic choice")
             key = (g[1], vals)
+            if self.certain:
+                return
             if self.all_choices:
                 yield self._leaf(s, ("choice", key, g[3])) if self.track_proofs else s
                 return
@@ -421,12 +464,12 @@ class Interp(object):
         else:
             raise ValueError(g)
 
-    def _conj(self, goals, i, ren, s, depth):
+    def _conj(self, goals, i, ren, s, depth, cj=False):
         if i == len(goals):
             yield s
             return
-        for s2 in self.solve(goals[i], ren, s, depth + 1):
-            for s3 in self._conj(goals, i + 1, ren, s2, depth):
+        for s2 in self.solve(goals[i], ren, s, depth + 1, cj):
+            for s3 in self._conj(goals, i + 1, ren, s2, depth, cj):
                 yield s3
 
     def _goal_ground(self, g, ren, s):
@@ -455,7 +498,7 @@ class Interp(object):
 
         return go(t)
 
-    def call(self, pred, args, s, depth):
+    def call(self, pred, args, s, depth, cj=False):
         cls = self.clauses.get((pred, len(args)))
         if cls is None:
             return
@@ -475,12 +518,16 @@ class Interp(object):
                     s2 = self._leaf(s2, ("fact", cid))
                 it = (s2,)
             else:
-                it = self.solve(body, ren, s2, depth + 1)
+                it = self.solve(body, ren, s2, depth + 1, cj)
             for s3 in it:
-                if seen is not None and not self.dup_call:
+                if seen is not None:
                     c = canonical(tuple(resolve(a, s3) for a in args))
                     if c in seen:
                         self.dup_call = True
+                        if cj:
+                            # ProbLog merges the equal answers of this call into one node before the enclosing
+                            # conjunction is built
+                            self.scopes[-1]["#dup-in-conj"] = True
                     seen.add(c)
                 yield s3
 
@@ -502,21 +549,24 @@ class Interp(object):
         return out
 
 
-def order_robust(proofs):
+def order_robust(proofs, uses):
     """Sufficient condition under which ProbLog's findall order heuristic (solutions sorted by the largest node id of
-    their proof; node ids grow in creation order; facts, builtin calls and tabled goals keep the node of their first
-    use) provably reproduces the SLD order: every solution after the first ends its proof with a leaf (fact instance
-    or =/\\= instance) that no earlier solution used.  `proofs`: the proofs (tuples of leaves) of the solutions of
-    one findall in SLD order."""
-    seen = set()
+    their proof; node ids grow in creation order; fact clauses, builtin calls and tabled goals keep the node of their
+    first use, also when that use was in a failing branch) provably reproduces the SLD list: every solution after
+    the first ends its proof with a leaf (fact clause or =/\\= instance) that is generated exactly once in the whole
+    evaluation of this findall, and no call inside a conjunction returns the same answer twice (the engine merges
+    equal answers of a call into one node; the conjunction built on top of it hides the separate proofs from the
+    ordering).  `proofs`: the proofs (tuples of leaves) of the solutions of one findall in SLD order;
+    `uses`: how often each leaf was generated."""
+    if uses.get("#dup-in-conj"):
+        return False
     for k, p in enumerate(proofs):
         if k > 0:
             if not p:
                 return False
             last = p[-1]
-            if last[0] in ("neg", "findall") or last in seen:
+            if len(last) == 1 or uses.get(last, 0) != 1:
                 return False
-        seen.update(p)
     return True
 
 
